@@ -541,7 +541,9 @@ Definition model_obs (r : res N) : option string :=
   match r with Ok fb => Some (fb_name fb) | Panic _ => None end.
 """
 
-SUBCHECKS = [sub_mappers, sub_options, sub_registry]
+from c09_kernel import sub_kernel
+
+SUBCHECKS = [sub_mappers, sub_options, sub_registry, sub_kernel]
 
 
 def main(argv):
